@@ -414,6 +414,11 @@ def cmd_check(prop, tier, base_seed, workers, runs_override=None, wall_cap=None,
     os.makedirs(os.path.join(out_dir(), "evidence"), exist_ok=True)
     with open(os.path.join(out_dir(), "evidence", f"{prop}.json"), "w") as f:
         json.dump(ev, f, indent=1, default=core._json_default)
+    if tier == "thorough" and runs_override is None:
+        # keep the last full thorough result next to the (quick) evidence file that every run rewrites
+        os.makedirs(os.path.join(out_dir(), "evidence_thorough"), exist_ok=True)
+        with open(os.path.join(out_dir(), "evidence_thorough", f"{prop}.json"), "w") as f:
+            json.dump(ev, f, indent=1, default=core._json_default)
 
     print(f"{prop} tier={tier} seed={base_seed} runs={agg['runs']} steps={agg['steps']} "
           f"distinct_nontrivial={len(nontriv)} states={len(states)} wall={wall:.1f}s "
